@@ -221,7 +221,9 @@ func IsCanonical(p string) bool {
 			return false
 		}
 	}
-	return !strings.Contains(p, "\\")
+	// a backslash is an ordinary character of a segment on this platform (filepath.ToSlash is the
+	// identity here), so it does not make a path unclean
+	return true
 }
 
 // Dir is the directory part of a canonical path ("/" for top-level files).
